@@ -96,6 +96,13 @@ CLAIMED["C19"] = (
     "DESIGN.md §4 C19",
 )
 
+CLAIMED["C16"] = (
+    "bounded exhaustive enumeration of catalogued genotypes x VCF encodings (BFS: one encoding change per level) loaded by Sample() and genotyped end to end",
+    "Every catalogued minor allele heterozygous and homozygous and every pair of minors (generated databases on either strand; thorough: SLCO1B1, NAT2, TPMT, CYP2C19 singles) is written as a left-anchored indexed VCF in the default encoding and with one encoding change (MNV as adjacent records, phased, REF swapped, complex/missing/haploid records mixed in, 2-3 sample columns with every index); per catalogued variant the support must equal the number of alternate copies, the reference support must complement it, unrecorded sites must be homozygous reference, and the end-to-end call must be the planted pair.",
+    "Records use the database's own indel placement. Reference support under an insertion is not required to drop.",
+    "DESIGN.md §4 C16",
+)
+
 PENDING_REASON = "check not built yet in this session (design in DESIGN.md §4); not claimed until it runs silently on the unchanged tree"
 NOT_APPLICABLE = {}
 
